@@ -98,4 +98,244 @@ theorem hashlittle2_init_tie (len pc pb : W32) :
       (0xdeadbeef + len + pc, 0xdeadbeef + len + pc, 0xdeadbeef + len + pc + pb) ∧
     Generated.hashlittle2_outputs_pc_c_pb_b = true := ⟨rfl, rfl⟩
 
+/-! ## extension: ARC4 (KSA, PRGA, apply_keystream), per-byte loops, hashlittle control flow -/
+
+/-- `for i in lo..hi { body }` with loop-carried state `σ`. -/
+def forRange {σ : Type} (body : σ → Nat → σ) : Nat → Nat → σ → σ
+  | 0, _, x => x
+  | n + 1, i, x => forRange body n (i + 1) (body x i)
+
+/-- `for byte in data { body }` with loop-carried state `σ`, collecting the rewritten bytes. -/
+def forBytes {σ : Type} (body : σ → Byte → σ × Byte) : σ → Bytes → σ × Bytes
+  | x, [] => (x, [])
+  | x, b :: bs =>
+    let (x1, o) := body x b
+    let (x2, os) := forBytes body x1 bs
+    (x2, o :: os)
+
+theorem slice_swap_tie (s : Array Byte) (a b : Nat) :
+    Generated.slice_swap s a b = Model.Arc4.swap s a b := rfl
+
+/-- `next_keystream_byte` as translated = the model's `next`. -/
+theorem arc4_next_tie (c : Model.Arc4.Cipher) :
+    Generated.arc4_next c.s c.i c.j =
+      (((Model.Arc4.next c).1.s, (Model.Arc4.next c).1.i, (Model.Arc4.next c).1.j),
+        (Model.Arc4.next c).2) := rfl
+
+theorem init_get (n : Nat) : ∀ (i : Nat) (s : Array Byte) (x : Nat) (_ : x < s.size),
+    (forRange Generated.arc4_init_body n i s).size = s.size ∧
+    (forRange Generated.arc4_init_body n i s)[x]? =
+      if i ≤ x ∧ x < i + n then some (BitVec.ofNat 8 x) else s[x]? := by
+  induction n with
+  | zero => intro i s x hx; refine ⟨rfl, ?_⟩; simp only [forRange]; rw [if_neg (by omega)]
+  | succ n ih =>
+    intro i s x hx
+    simp only [forRange, Generated.arc4_init_body]
+    have h := ih (i + 1) (s.setIfInBounds i (BitVec.ofNat 8 i)) x (by simp only [Array.size_setIfInBounds]; exact hx)
+    refine ⟨by rw [h.1, Array.size_setIfInBounds], ?_⟩
+    rw [h.2, Array.getElem?_setIfInBounds]
+    by_cases h1 : i = x
+    · subst h1
+      simp only [hx, ↓reduceIte]
+      rw [if_neg (by omega), if_pos (by omega)]
+    · by_cases h2 : i + 1 ≤ x ∧ x < i + 1 + n
+      · rw [if_pos h2, if_pos (by omega)]
+      · rw [if_neg h2, if_neg h1, if_neg (by omega)]
+
+/-- the S-box initialisation loop, run from `[fill; len]`, builds the identity permutation the
+model starts from. -/
+theorem arc4_init_tie :
+    forRange Generated.arc4_init_body (Generated.arc4_init_hi - Generated.arc4_init_lo)
+        Generated.arc4_init_lo (Array.replicate Generated.arc4_s_len Generated.arc4_s_fill) =
+      (Array.range 256).map (BitVec.ofNat 8) := by
+  have e1 : Generated.arc4_init_hi - Generated.arc4_init_lo = 256 := rfl
+  have e2 : Generated.arc4_init_lo = 0 := rfl
+  have e3 : Generated.arc4_s_len = 256 := rfl
+  rw [e1, e2, e3]
+  apply Array.ext_getElem?
+  intro x
+  by_cases hx : x < 256
+  · rw [(init_get 256 0 _ x (by simp only [Array.size_replicate]; exact hx)).2, if_pos (by omega)]
+    simp [hx]
+  · have hs := (init_get 256 0 (Array.replicate 256 Generated.arc4_s_fill) 0 (by simp)).1
+    rw [Array.getElem?_eq_none (by rw [hs]; simp; omega), Array.getElem?_eq_none (by simp; omega)]
+
+/-- the key-scheduling loop as translated = the model's `ksa` (any number of iterations, any
+starting point). -/
+theorem arc4_ksa_tie (key : Array Byte) : ∀ (n i : Nat) (j : Byte) (s : Array Byte),
+    (forRange (fun (x : Array Byte × Byte) i => Generated.arc4_ksa_body key x.1 i x.2) n i (s, j)).1 =
+      Model.Arc4.ksa key n i j s := by
+  intro n
+  induction n with
+  | zero => intro i j s; rfl
+  | succ n ih =>
+    intro i j s
+    simp only [forRange, Model.Arc4.ksa, Generated.arc4_ksa_body, slice_swap_tie]
+    exact ih _ _ _
+
+/-- `Arc4Cipher::new`, assembled from the translated guard, struct literal, both loops and the
+initial `j`, is the model's `new`. -/
+theorem arc4_new_tie (key : Bytes) :
+    Model.Arc4.new key =
+      (if Generated.arc4_key_rejected key.length then none else
+      some { s := (forRange (fun (x : Array Byte × Byte) i => Generated.arc4_ksa_body key.toArray x.1 i x.2)
+                    (Generated.arc4_ksa_hi - Generated.arc4_ksa_lo) Generated.arc4_ksa_lo
+                    (forRange Generated.arc4_init_body (Generated.arc4_init_hi - Generated.arc4_init_lo)
+                        Generated.arc4_init_lo
+                        (Array.replicate Generated.arc4_s_len Generated.arc4_s_fill),
+                      Generated.arc4_ksa_j0)).1,
+             i := Generated.arc4_i0, j := Generated.arc4_j0 }) ∧
+    Generated.arc4_new_flow_ok = true := by
+  refine ⟨?_, rfl⟩
+  rw [arc4_init_tie, arc4_ksa_tie]
+  unfold Model.Arc4.new Generated.arc4_key_rejected
+  cases key with
+  | nil => rfl
+  | cons x xs =>
+    simp only [List.isEmpty_cons, Bool.false_or, List.length_cons, decide_eq_true_eq]
+    have e : ¬ (xs.length + 1 = 0) := by omega
+    simp only [e, false_or]
+    rfl
+
+/-- the translated loop body on the tuple of fields. -/
+def arc4Body (x : Array Byte × Byte × Byte) (b : Byte) : (Array Byte × Byte × Byte) × Byte :=
+  Generated.arc4_apply_body x.1 x.2.1 x.2.2 b
+
+theorem arc4_apply_body_tie (c : Model.Arc4.Cipher) (b : Byte) :
+    arc4Body (c.s, c.i, c.j) b =
+      (((Model.Arc4.next c).1.s, (Model.Arc4.next c).1.i, (Model.Arc4.next c).1.j),
+        b ^^^ (Model.Arc4.next c).2) := rfl
+
+/-- the per-byte loop of `Arc4Cipher::apply_keystream` as translated = the model's `apply`;
+`encrypt` is the same XOR map and `decrypt` calls `encrypt`. -/
+theorem arc4_apply_tie (m : Bytes) : ∀ (c : Model.Arc4.Cipher),
+    forBytes arc4Body (c.s, c.i, c.j) m =
+      (((Model.Arc4.apply c m).1.s, (Model.Arc4.apply c m).1.i, (Model.Arc4.apply c m).1.j),
+        (Model.Arc4.apply c m).2) := by
+  induction m with
+  | nil => intro c; rfl
+  | cons b bs ih =>
+    intro c
+    simp only [forBytes, Model.Arc4.apply, arc4_apply_body_tie, ih (Model.Arc4.next c).1]
+
+theorem arc4_idioms_tie :
+    Generated.arc4_encrypt_is_xor_map = true ∧ Generated.arc4_decrypt_is_encrypt = true := ⟨rfl, rfl⟩
+
+/-- `generate_keystream` on the three fields. -/
+def genFields (state : S) (keystream : Bytes) (pos : Nat) : S × Bytes × Nat :=
+  let c := Model.Salsa20.generate { state := state, keystream := keystream, pos := pos }
+  (c.state, c.keystream, c.pos)
+
+/-- the translated loop body on the tuple of fields. -/
+def salsaBody (x : S × Bytes × Nat) (b : Byte) : (S × Bytes × Nat) × Byte :=
+  Generated.salsa_apply_body genFields x.1 x.2.1 x.2.2 b
+
+/-- the body of the per-byte loop of `Salsa20Cipher::apply_keystream` as translated (refill test,
+XOR with `keystream[keystream_pos]`, position increment) = the model's `stepByte`. -/
+theorem salsa_apply_body_tie (c : Model.Salsa20.Cipher) (b : Byte) :
+    salsaBody (c.state, c.keystream, c.pos) b =
+      (((Model.Salsa20.stepByte c b).1.state, (Model.Salsa20.stepByte c b).1.keystream,
+        (Model.Salsa20.stepByte c b).1.pos), (Model.Salsa20.stepByte c b).2) := by
+  unfold salsaBody Generated.salsa_apply_body Model.Salsa20.stepByte genFields
+  by_cases h : c.pos ≥ 64
+  · simp only [h, ↓reduceIte]
+  · simp only [h, ↓reduceIte]
+
+/-- … and the whole loop = the model's `apply`. -/
+theorem salsa_apply_tie (m : Bytes) : ∀ (c : Model.Salsa20.Cipher),
+    forBytes salsaBody (c.state, c.keystream, c.pos) m =
+      (((Model.Salsa20.apply c m).1.state, (Model.Salsa20.apply c m).1.keystream,
+        (Model.Salsa20.apply c m).1.pos), (Model.Salsa20.apply c m).2) := by
+  induction m with
+  | nil => intro c; rfl
+  | cons b bs ih =>
+    intro c
+    simp only [forBytes, Model.Salsa20.apply, salsa_apply_body_tie, ih (Model.Salsa20.stepByte c b).1]
+
+/-- `u32::try_from(len).unwrap_or(u32::MAX)` as translated = the model's saturating `len32`. -/
+theorem hashlittle_len_tie (n : Nat) :
+    Generated.hashlittle_len n = Model.Jenkins.len32 n ∧
+    Generated.hashlittle2_len n = Model.Jenkins.len32 n := by
+  unfold Generated.hashlittle_len Generated.hashlittle2_len Generated.u32_try_from Model.Jenkins.len32
+  by_cases h : n < 2 ^ 32 <;> simp [h]
+
+/-- the `while k.len() > thr` loop over a generated block function. -/
+def whileBlocks (block : W32 → W32 → W32 → Byte → Byte → Byte → Byte → Byte → Byte → Byte → Byte →
+      Byte → Byte → Byte → Byte → W32 × W32 × W32) (thr adv : Nat) :
+    Nat → W32 → W32 → W32 → Bytes → (W32 × W32 × W32) × Bytes
+  | 0, a, b, c, k => ((a, b, c), k)
+  | fuel + 1, a, b, c, k =>
+    if k.length > thr then
+      match k with
+      | k0 :: k1 :: k2 :: k3 :: k4 :: k5 :: k6 :: k7 :: k8 :: k9 :: k10 :: k11 :: _ =>
+        let (a, b, c) := block a b c k0 k1 k2 k3 k4 k5 k6 k7 k8 k9 k10 k11
+        whileBlocks block thr adv fuel a b c (k.drop adv)
+      | _ => ((a, b, c), k)
+    else ((a, b, c), k)
+
+theorem whileBlocks_tie (block) (hb : ∀ a b c k0 k1 k2 k3 k4 k5 k6 k7 k8 k9 k10 k11,
+      block a b c k0 k1 k2 k3 k4 k5 k6 k7 k8 k9 k10 k11 =
+        Spec.Lookup3.mix (a + le32 k0 k1 k2 k3) (b + le32 k4 k5 k6 k7) (c + le32 k8 k9 k10 k11)) :
+    ∀ (fuel : Nat) (a b c : W32) (k : Bytes), k.length ≤ fuel →
+      whileBlocks block 12 12 fuel a b c k = Model.Jenkins.blocks a b c k := by
+  intro fuel
+  induction fuel with
+  | zero =>
+    intro a b c k hk
+    have : k = [] := List.eq_nil_of_length_eq_zero (by omega)
+    subst this; rfl
+  | succ fuel ih =>
+    intro a b c k hk
+    match k with
+    | [] | [_] | [_,_] | [_,_,_] | [_,_,_,_] | [_,_,_,_,_] | [_,_,_,_,_,_] | [_,_,_,_,_,_,_]
+    | [_,_,_,_,_,_,_,_] | [_,_,_,_,_,_,_,_,_] | [_,_,_,_,_,_,_,_,_,_] | [_,_,_,_,_,_,_,_,_,_,_]
+    | [_,_,_,_,_,_,_,_,_,_,_,_] => rfl
+    | k0 :: k1 :: k2 :: k3 :: k4 :: k5 :: k6 :: k7 :: k8 :: k9 :: k10 :: k11 :: k12 :: rest =>
+      have hl : (k0 :: k1 :: k2 :: k3 :: k4 :: k5 :: k6 :: k7 :: k8 :: k9 :: k10 :: k11 :: k12 :: rest).length > 12 := by
+        simp only [List.length_cons]; omega
+      simp only [whileBlocks, if_pos hl, hb, Model.Jenkins.blocks, List.drop_succ_cons, List.drop_zero]
+      exact ih _ _ _ _ (by simp only [List.length_cons] at hk ⊢; omega)
+
+/-- `hashlittle`, assembled from the translated fragments in the order the translator checked
+(initial registers from the translated length word, empty-input return, block loop, tail match,
+`final_mix`, result `c`), is the model's `hashlittle`. -/
+theorem hashlittle_assembly_tie (data : Bytes) (initval : W32) :
+    Model.Jenkins.hashlittle data initval =
+      (let (a, b, c) := Generated.hashlittle_init (Generated.hashlittle_len data.length) initval
+       if data.isEmpty then Generated.hashlittle_empty_return a b c else
+       let ((a, b, c), k) := whileBlocks Generated.hashlittle_block
+         Generated.hashlittle_block_threshold Generated.hashlittle_block_advance data.length a b c data
+       match Generated.hashlittle_tail a b c k with
+       | some (a, b, c) => (Generated.final_mix a b c).2.2
+       | none => c) ∧
+    Generated.hashlittle_flow_ok = true := by
+  refine ⟨?_, rfl⟩
+  have hb := fun a b c k0 k1 k2 k3 k4 k5 k6 k7 k8 k9 k10 k11 =>
+    (hashlittle_block_tie a b c k0 k1 k2 k3 k4 k5 k6 k7 k8 k9 k10 k11).1
+  have e1 : Generated.hashlittle_block_threshold = 12 := rfl
+  have e2 : Generated.hashlittle_block_advance = 12 := rfl
+  simp only [e1, e2, whileBlocks_tie _ hb data.length _ _ _ data (Nat.le_refl _),
+    (hashlittle_len_tie data.length).1, (hashlittle_init_tie _ _).1, hashlittle_tail_tie, final_mix_tie]
+  rfl
+
+/-- the same for `hashlittle2_impl` (results `*pc = c; *pb = b`). -/
+theorem hashlittle2_assembly_tie (key : Bytes) (pc pb : W32) :
+    Model.Jenkins.hashlittle2 key pc pb =
+      (let (a, b, c) := Generated.hashlittle2_init (Generated.hashlittle2_len key.length) pc pb
+       if key.isEmpty then Generated.hashlittle2_empty_return a b c pc pb else
+       let ((a, b, c), k) := whileBlocks Generated.hashlittle2_block
+         Generated.hashlittle2_block_threshold Generated.hashlittle2_block_advance key.length a b c key
+       match Generated.hashlittle2_tail a b c k with
+       | some (a, b, c) => ((Generated.final_mix a b c).2.2, (Generated.final_mix a b c).2.1)
+       | none => (c, b)) ∧
+    Generated.hashlittle2_flow_ok = true := by
+  refine ⟨?_, rfl⟩
+  have hb := fun a b c k0 k1 k2 k3 k4 k5 k6 k7 k8 k9 k10 k11 =>
+    (hashlittle2_block_tie a b c k0 k1 k2 k3 k4 k5 k6 k7 k8 k9 k10 k11).1
+  have e1 : Generated.hashlittle2_block_threshold = 12 := rfl
+  have e2 : Generated.hashlittle2_block_advance = 12 := rfl
+  simp only [e1, e2, whileBlocks_tie _ hb key.length _ _ _ key (Nat.le_refl _),
+    (hashlittle_len_tie key.length).2, (hashlittle2_init_tie _ _ _).1, hashlittle2_tail_tie, final_mix_tie]
+  rfl
+
 end Cascette.Proofs.CryptoTie
